@@ -81,7 +81,7 @@ def last_request(c):
 
 
 def bounds(tier):
-    return {'histories': 'depth %d over %d methods x %d reply kinds, dedup on (id counter, outcome class)' % (4 if tier == 'quick' else 6, len(METHODS), len(REPLY_KINDS)),
+    return {'histories': 'depth %d over %d methods x %d reply kinds + close + another proxy (<=2), dedup on (id counter, outcome class, fingerprint of every attribute of the proxy object)' % (4 if tier == 'quick' else 6, len(METHODS), len(REPLY_KINDS)),
             'amounts': 'every satoshi 0..100000; d*10^k (d 1..9, k 0..15); 21e14 and 21e14-1; every zero/non-zero pattern of the 8 fractional digits x integer parts {0, 1, 20999999}; 4 textual forms; 7 receiving fields, 2 sending methods',
             'hashes': '%d patterned 32-byte values through every method that sends or returns a hash; 3 chained histories' % len(HASHES)}
 
@@ -211,7 +211,10 @@ class Histories(BFSFamily):
         return 4 if tier == 'quick' else 6
 
     def events(self, history):
-        return [(m, k) for m in range(len(METHODS)) for k in range(len(REPLY_KINDS))] + [(-1, 0)]
+        evs = [(m, k) for m in range(len(METHODS)) for k in range(len(REPLY_KINDS))] + [(-1, 0)]
+        if sum(1 for e in history if e[0] == -2) < 2:
+            evs.append((-2, 0))         # another proxy is created and makes one call of its own
+        return evs
 
     def apply(self, history):
         from bitcoin.rpc import JSONRPCError
@@ -221,7 +224,25 @@ class Histories(BFSFamily):
         last = None
         prev_id = 0
         kind_class = 'closed'
+        others = []
         for n, (mi, ki) in enumerate(history):
+            if mi == -2:
+                # a second / third proxy object with its own connection: its first request carries a positive id, and nothing
+                # it does touches the first proxy's sequence
+                p2, c2 = new_proxy()
+                c2.replies.append(make_reply('result', '1'))
+                p2.getblockcount()
+                rid2 = last_request(c2)['id']
+                if not isinstance(rid2, int) or rid2 <= 0:
+                    raise Viol('first request id of a newly created proxy', '> 0', rid2)
+                for q2, cq, last2 in others:
+                    cq.replies.append(make_reply('result', '1'))
+                    q2.getblockcount()
+                    if last_request(cq)['id'] <= last2[0]:
+                        raise Viol('request ids of an older proxy do not increase after another proxy was created', '> %d' % last2[0], last_request(cq)['id'])
+                    last2[0] = last_request(cq)['id']
+                others.append((p2, c2, [rid2]))
+                continue
             if mi == -1:
                 # close() on the proxy (the connection object is re-used by the next call, as http.client does)
                 p.close()
@@ -245,7 +266,7 @@ class Histories(BFSFamily):
                 raise Viol('%s issued %d requests' % (method, len(c.requests) - nreq), 1, len(c.requests) - nreq)
             rid = last_request(c)['id']
             if not isinstance(rid, int) or rid <= prev_id:
-                raise Viol('request id %r after previous id %r (history %r): ids must strictly increase over the life of a proxy' % (rid, prev_id, [(METHODS[a], REPLY_KINDS[b]) for a, b in history[:n + 1]]),
+                raise Viol('request id %r after previous id %r (history %r): ids must strictly increase over the life of a proxy' % (rid, prev_id, [(METHODS[a], REPLY_KINDS[b]) if a >= 0 else ('close' if a == -1 else 'another proxy created and used') for a, b in history[:n + 1]]),
                            '> %d' % prev_id, rid)
             prev_id = rid
             if want[0] == 'result':
@@ -269,7 +290,19 @@ class Histories(BFSFamily):
         # the key contains the proxy's real counter (read from the object) and the class of the last reply, not only
         # what the requests showed: merged states must really have the same futures
         internal = getattr(p, '_BaseProxy__id_count', None)
-        return (prev_id, internal, last, kind_class), True, str(last)
+
+        def simple(v, d=0):
+            if isinstance(v, (int, str, bytes, bool, float)) or v is None:
+                return v
+            if d < 3 and isinstance(v, (list, tuple)):
+                return tuple(simple(x, d + 1) for x in v)
+            if d < 3 and isinstance(v, dict):
+                return tuple(sorted((str(k), repr(simple(x, d + 1))) for k, x in v.items()))
+            return type(v).__name__
+        # everything the proxy object itself holds (whatever its attributes are called), so that two histories are merged
+        # only when the object really is in the same state
+        finger = repr(sorted((k, repr(simple(v))) for k, v in vars(p).items() if v is not c))
+        return (prev_id, internal, last, kind_class, len(others), finger), True, str(last)
 
 
 # ---------------------------------------------------------------------------------------------------------------
@@ -488,6 +521,27 @@ class Objects(Family):
                     raise Viol('%s: transaction hex sent differs from its serialisation' % name, enc.hex()[:100], last_request(c)['params'][0][:100])
                 if pick is not None and pick(r).serialize() != enc:
                     raise Viol('%s: returned transaction differs bit-wise' % name, None, None)
+            # send . edit in place . send: ONE mutable transaction object goes through every sending method, is edited in place
+            # (every edit of the catalogue in turn) and goes through them again: the hex sent is that of the current fields
+            mm = C.tx_from_case(c01.TX_POOL[x])
+            if mm.get('wit') is None:
+                mtx = C.lib_tx(mm, mutable=True)
+                steps = [('unedited', lambda t, m_: None)] + C.inplace_edits(mm)
+                for ename, efn in steps:
+                    if ename in ('pop_in',) and len(mm['vin']) <= 1:
+                        continue
+                    efn(mtx, mm)
+                    want_hex = W.encode_tx(mm).hex()
+                    for name, fn, body in [
+                        ('sendrawtransaction', lambda: p.sendrawtransaction(mtx), q(core_hex(H0))),
+                        ('signrawtransaction', lambda: p.signrawtransaction(mtx), q({'hex': enc.hex(), 'complete': True})),
+                        ('signrawtransactionwithwallet', lambda: p.signrawtransactionwithwallet(mtx), q({'hex': enc.hex(), 'complete': True})),
+                        ('fundrawtransaction', lambda: p.fundrawtransaction(mtx), '{"hex": "%s", "fee": 0.1, "changepos": 0}' % enc.hex()),
+                    ]:
+                        c.replies.append(reply_result(body))
+                        fn()
+                        if last_request(c)['params'][0] != want_hex:
+                            raise Viol('%s of a mutable transaction after in-place edit %s: the hex sent is not the serialisation of its current fields' % (name, ename), want_hex[:100], last_request(c)['params'][0][:100])
             c.replies.append(reply_result(q(enc.hex().upper() if x % 2 else enc.hex())))
             r = p.getrawtransaction(H0)
             if r.serialize() != enc or C.model_of_tx(r) != W.norm_tx(m):
